@@ -17,6 +17,7 @@ func init() {
 			"(C03-subject) on the eval path Check{Ingress,Egress}ConnAllowed of an admin policy is called only where its subject is known to select the destination (ingress) / the source (egress), or the callee tests that itself. " +
 			"(C03-sel-owner) label selectors are matched inside the policy engine only (packages eval and eval/internal/k8s; the ingress analyzer for Service selectors): a second place that decides which objects a policy selects - a pre-filter of the objects given to `eval`, a relevance test in the parser - works on its own view of the labels and can drop a policy that the other command applies. " +
 			"(C03-asdecoded) no production function rewrites a decoded API object it did not build (namespace default excepted): list reads manifests through the parser, eval and the library API may be handed objects directly, so a rewrite on one path makes the two disagree. " +
+			"(C03-admin-ip) an admin-policy selection answers true for non-IP peers only (the rule E2-N3-sel of C12, and the premise of C02-d): the IP ranges of list are cut at the ipBlocks of NetworkPolicies only, so a rule that could match an address would make eval (one address) and list (a whole range) disagree. " +
 			"NOT decided: equality of the two computations on any actual input."
 		rules.FieldCoverage(p, r, "C03-a", "eval", rules.EvalEntries(p), append(append([]string{}, rules.FieldsNetpol...), rules.FieldsAdmin...), "list reads it, so eval must too")
 		rules.FieldCoverage(p, r, "C03-a-list", "list", rules.ListEntries(p), append([]string{}, rules.FieldsAdmin...), "eval reads it, so list must too")
@@ -33,6 +34,7 @@ func init() {
 		rules.CacheKeyShape(p, r, "C03-cache-key")
 		rules.AdminCheckUnderSubjectSelection(p, r, "C03-subject")
 		rules.SelectionOwnedByEngine(p, r, "C03-sel-owner")
+		rules.AdminSelectionExcludesIPs(p, r, "C03-admin-ip")
 		rules.ObjectsEvaluatedAsDecoded(p, r, "C03-asdecoded")
 		rules.SeenSetKeyCompleteness(p, r, "C03-part-seen")
 		rules.UnconditionalIPBlockContribution(p, r, "C03-part-all")
